@@ -123,6 +123,13 @@ func (b *batchedEvents) UnmarshalMsg(bts []byte) (o []byte, err error) {
 		err = msgp.WrapError(err)
 		return
 	}
+	// Every event takes at least one byte. A count the rest of the body cannot
+	// hold is malformed, and must not size the allocation below: five bytes
+	// announcing 2^32-1 events would otherwise ask for terabytes.
+	if uint64(totalValues) > uint64(len(bts)) {
+		err = msgp.WrapError(msgp.ErrShortBytes)
+		return
+	}
 	b.events = make([]batchedEvent, totalValues)
 	for i := range b.events {
 		b.events[i].cfg = b.cfg
